@@ -133,6 +133,31 @@ def run(tier):
         scen.append(sc)
     seqfam.run_scenarios(res, scen, "TraceDirect", tag="direct", relayout_p=0.3, retype_p=0.3, rename_p=0.3)
     seqfam.run_pinned(res, "TraceDirect")
+    # the 1 : n projection unnest(): every element of the array column yields one result row, in element order, each row's results
+    # before the next row's (TraceUnnest)
+    un = []
+    for i in range(300 if quick else 10000):
+        cols = rng.choice([["id"], ["id", "g"], ["g", "id"]])
+        where = rng.choice([None, None, {"c": "w", "op": rng.choice([">", "<", ">="]), "lit": rng.choice([0, 1, 2]) * 10000}])
+        rows = []
+        for j in range(rng.choice([3, 5, 8])):
+            k = rng.random()
+            if k < 0.45: a = [rng.choice([1, 2, 3, "x", "y", {"$f": 2.5}, None, [1, 2]]) for _ in range(rng.choice([1, 2, 3, 4]))]
+            elif k < 0.7: a = [rng.choice([{"x": 1, "y": "p"}, {"x": 2}, {"z": [1]}, {"x": None, "q": "r"}]) for _ in range(rng.choice([1, 2, 3]))]
+            elif k < 0.8: a = []
+            elif k < 0.9: a = None
+            else: a = "__missing__"
+            r = {"id": j + 1, "g": rng.choice(["p", "q"]), "w": rng.choice([0, 1, 2, 3])}
+            if a != "__missing__": r["a"] = a
+            rows.append(r)
+        meta = {"fam": "unnest", "cols": cols, "arr": "a", "al": "r"}
+        txt = "SELECT %s, unnest(a) AS r FROM stream" % ", ".join(cols)
+        if where:
+            meta["where"] = where
+            txt += " WHERE w %s %d" % (where["op"], where["lit"] // 10000)
+        un.append({"meta": meta, "sql": txt, "rows": rows})
+    seqfam.run_scenarios(res, un, "TraceUnnest", tag="unnest", relayout_p=0.3)
+    res.cov["unnest_scenarios"] = len(un)
     res.cov["exhaustive"] = False
     res.cov["distinct_nontrivial"] = len({s["sql"] + json.dumps(s["rows"], sort_keys=True) for s in scen})
     res.cov["rule"] = ("seeded queries: SELECT lists of columns, aliases, nested paths, string literals, arithmetic, function calls or *, optional WHERE (flat AND/OR chains or nested predicates), "
